@@ -365,7 +365,23 @@ Fixpoint run (x : state) (names fnames : list str) (ops : list op) : list (Z * Z
               (outcome_code out, hash_list (observe x' names fnames)) :: run x' names fnames r
   end.
 
+(* an API call that performs two model operations before anything can be observed, e.g. Context(parent, data=v) =
+   new plain context followed by the assignment of `$` in it *)
+Inductive cop := One (o : op) | Two (o1 o2 : op).
+Fixpoint runc (x : state) (names fnames : list str) (ops : list cop) : list (Z * Z) :=
+  match ops with
+  | [] => []
+  | One o :: r => let '(x', out) := step x o in
+                  (outcome_code out, hash_list (observe x' names fnames)) :: runc x' names fnames r
+  | Two o1 o2 :: r => let '(x1, out1) := step x o1 in
+                      let '(x2, out2) := step x1 o2 in
+                      (Z.max (outcome_code out1) (outcome_code out2), hash_list (observe x2 names fnames))
+                      :: runc x2 names fnames r
+  end.
+
 Definition obs_eqb (a b : list (Z * Z)) : bool := list_eqb (pair_eqb Z.eqb Z.eqb) a b.
 
 Record case := { c_names : list str; c_fnames : list str; c_ops : list op; c_obs : list (Z * Z) }.
 Definition case_ok (c : case) : bool := obs_eqb (run init_state (c_names c) (c_fnames c) (c_ops c)) (c_obs c).
+Record ccase := { cc_names : list str; cc_fnames : list str; cc_ops : list cop; cc_obs : list (Z * Z) }.
+Definition ccase_ok (c : ccase) : bool := obs_eqb (runc init_state (cc_names c) (cc_fnames c) (cc_ops c)) (cc_obs c).
